@@ -555,6 +555,8 @@ impl<'a, R: RealNumberInternalTrait> Interpreter<'a, R> {
         Ok(library)
     }
     pub fn eval_import_set(&mut self, import: &ImportSet) -> Result<Vec<(String, Value<R>)>> {
+        #[cfg(ruschm_verif)]
+        let _verif_guard = crate::verif_hooks::enter()?;
         match &import.data {
             ImportSetBody::Direct(lib_name) => {
                 if self
